@@ -227,7 +227,8 @@ def frozen_refs(ctx):
 
 
 URI_SEGS = ["f.md", "d", "ld", "lin", "lf.md", "lfi.md", "dang.md", "dangd", "loop.md", "up", "trick.md", "n.md", ".", "..", "", "z\x00.md", "C:", "h.txt"]
-URI_EXTRA = ["{SB}/../out/secret.md", "{SB}/d/../../out/f.md", "loop.md/../lf.md", "trick.md/../lf.md", "loop.md/../ld/secret.md", "loop.md/../f.md", "d/loop.md/../../lf.md", "", "/", "/etc/passwd", "{SB}/f.md", "C:/x", "C:", "c:\\x", "a:", ":", "x:", "../sb/f.md", "../out/secret.md", "../../x", "up/out/secret.md", "up/sb/f.md",
+URI_EXTRA = ["../sb-private/f.md", "../sbx/f.md", "../d-private/f.md", "../dx/f.md", "d/../../sb-private/f.md", "../../sbx/f.md", "../../sb-private/f.md", "{SB}-private/f.md",
+             "{SB}/../out/secret.md", "{SB}/d/../../out/f.md", "loop.md/../lf.md", "trick.md/../lf.md", "loop.md/../ld/secret.md", "loop.md/../f.md", "d/loop.md/../../lf.md", "", "/", "/etc/passwd", "{SB}/f.md", "C:/x", "C:", "c:\\x", "a:", ":", "x:", "../sb/f.md", "../out/secret.md", "../../x", "up/out/secret.md", "up/sb/f.md",
              "d/../../out/secret.md", "d/up/f.md", "d/up/../../out/f.md", "lin/../f.md", "ld/../sb/f.md", "ld/secret.md", "lf.md", "lfi.md", "dang.md", "loop.md/x", "trick.md",
              "f.md/..", "f.md/../f.md", "n/../f.md", "n/../../out/f.md", ".//f.md", "d//f.md", "\x00", "d/\x00/../f.md", " /etc/passwd", "~/x", "d/" + P.LONG_BAD, P.LONG_BAD + "/../f.md"]
 
